@@ -397,3 +397,26 @@ package dkg
 //@ func NewDKGStore(baseFolder) (s, err)
 //@   props C15
 //@   call Open#0: assert [C15:dkg-database-is-created-owner-only] arg1 % 64 == 0
+
+// ---- C13: the DKG database records a completed epoch as one whole transaction ----------------------------------------
+// package-level bucket names (declared once, never reassigned: checked by grep in setup)
+//@ axiom [C13] dkg-bucket-names-differ: stagedStateBucket != finishedStateBucket
+
+//@ extern encodeState(state) (b, err)
+//@   trusted TOML encoding of the state's mirror struct (field coverage is C20's subject)
+//@   modifies nothing
+
+//@ func (*BoltStore).SaveFinished(s, beaconID, state) (err)
+//@   props C13
+//@   ensures [C13:a-completed-epoch-is-recorded-by-exactly-one-transaction] ntx(s.db) == old(ntx(s.db)) + 1
+
+//@ func (*BoltStore).SaveFinished$1(tx) (err)
+//@   props C13
+//@   requires nput(tx) == 0
+//@   call encodeState#0: assert [C13:the-recorded-state-is-the-completed-state] arg0 == state
+//@   ensures [C13:the-transaction-writes-the-finished-and-the-current-record-together] err == nil ==> putVal(tx, finishedStateBucket) == putVal(tx, stagedStateBucket) && bytesEq(putKey(tx, finishedStateBucket), strBytes(beaconID)) && bytesEq(putKey(tx, stagedStateBucket), strBytes(beaconID)) && nput(tx) == 2
+//@   ensures [C13:a-failed-transaction-reports-its-error] nput(tx) < 2 ==> err != nil
+
+//@ func (*BoltStore).save(s, bucketName, beaconID, state) (err)
+//@   props C13
+//@   ensures [C13:a-single-record-is-saved-by-one-transaction] ntx(s.db) == old(ntx(s.db)) + 1
